@@ -330,8 +330,8 @@ fn slot_sub(tier: Tier) -> Sub {
     }
   }
   sub.bounds = json!({"cells": list.len()});
-  sub.notes.push("E4 cells are real-clock executions: the matrix is enumerated completely, the schedules inside a cell are not".into());
-  par::enumerate(&mut sub, list.len(), |i| {
+  sub.notes.push("a violation in a real-clock cell is reported only if it shows again when the cell is executed a second time; E4 cells are real-clock executions: the matrix is enumerated completely, the schedules inside a cell are not".into());
+  par::enumerate(&mut sub, list.len(), |i| par::confirmed(|| {
     let (k, ivl) = list[i];
     let rt = tokio::runtime::Builder::new_multi_thread().worker_threads(2).enable_all().build().expect("runtime");
     let r = rt.block_on(async move { tokio::time::timeout(Duration::from_secs(60), slot_cell(k, ivl)).await });
@@ -358,7 +358,7 @@ fn slot_sub(tier: Tier) -> Sub {
       }
     }
     case
-  });
+  }));
   sub
 }
 
